@@ -11,6 +11,8 @@ for d in sorted(glob.glob(f"{ROOT}/seeded/*")):
     at = m.get("at_head") or {}
     checks = at.get("checks") or m.get("checks") or {}
     head = at.get("head") or m.get("repo_head", "?")
+    if m.get("no_longer_applies_at"):
+        head = f"{head} (does not apply at {m['no_longer_applies_at'].get('head')}: the edited code was rewritten by a fix)"
     notes = ""
     np_ = f"{d}/notes.md"
     if os.path.exists(np_):
@@ -19,6 +21,8 @@ for d in sorted(glob.glob(f"{ROOT}/seeded/*")):
         notes = re.sub(r"^(C\d+\s+)?[Cc]hange\s*\d+\s*[-:]\s*", "", notes)
     det = ", ".join(f"{c}" for c, v in checks.items() if v.get("detected"))
     miss = ", ".join(f"{c}" for c, v in checks.items() if not v.get("detected"))
+    if m.get("neutralised_at"):
+        det = (det if det != "" else "-") + f" (harmless since fix {m['neutralised_at']['head']}: its own demonstration passes there)"
     rows.append((os.path.basename(d), m.get("breaks", "?"), "yes" if m.get("confirmed") else "no", notes[:110], det or "-", miss or "-", head))
 lines = ["| seeded change (directory under `seeded/`) | breaks | confirmed (demo fails, suite passes) | what it is | caught by (quick tier) | also run, silent | checked at `/repo` |", "|---|---|---|---|---|---|---|"]
 for r in rows:
